@@ -48,6 +48,7 @@ var (
 	globalUses  []rec
 	fieldWrites []rec
 	sliceFlows  []rec
+	dispatch    []rec
 	ourPkgs     = map[*types.Package]bool{}
 )
 
@@ -152,6 +153,7 @@ func main() {
 					collectGlobalUses(pi, fd, fn)
 					collectFieldWrites(pi, fd, fn)
 					collectDict(pi, fd, fn)
+					collectDispatch(pi, fd, fn)
 				}
 			}
 		}
@@ -161,6 +163,62 @@ func main() {
 	if len(os.Args) == 4 {
 		writeDict(os.Args[3])
 	}
+}
+
+// ---------------------------------------------------------------- dispatch tables
+// (a) every method named Type whose body is `return <constant>`: (receiver type, "type-code", value)
+// (b) every switch whose case labels are constants and whose clause instantiates a type (new(T), &T{}, NewT()):
+//
+//	(function, constant value, instantiated type / constructor)
+func collectDispatch(pi *pkgInfo, fd *ast.FuncDecl, fn string) {
+	if fd.Name.Name == "Type" && fd.Recv != nil && len(fd.Body.List) == 1 {
+		if rs, ok := fd.Body.List[0].(*ast.ReturnStmt); ok && len(rs.Results) == 1 {
+			if tv, ok := pi.info.Types[rs.Results[0]]; ok && tv.Value != nil && tv.Value.Kind() == constant.Int {
+				dispatch = append(dispatch, rec{strings.TrimSuffix(fn, ".Type"), "type-code", tv.Value.ExactString()})
+			}
+		}
+	}
+	ast.Inspect(fd.Body, func(n ast.Node) bool {
+		sw, ok := n.(*ast.SwitchStmt)
+		if !ok {
+			return true
+		}
+		for _, st := range sw.Body.List {
+			cc := st.(*ast.CaseClause)
+			var made string
+			for _, bs := range cc.Body {
+				ast.Inspect(bs, func(m ast.Node) bool {
+					if made != "" {
+						return false
+					}
+					switch x := m.(type) {
+					case *ast.CallExpr:
+						if id, ok := x.Fun.(*ast.Ident); ok {
+							if id.Name == "new" && len(x.Args) == 1 {
+								made = exprText(x.Args[0])
+							} else if strings.HasPrefix(id.Name, "New") {
+								made = id.Name + "()"
+							}
+						}
+					case *ast.UnaryExpr:
+						if cl, ok := x.X.(*ast.CompositeLit); ok && x.Op == token.AND && cl.Type != nil {
+							made = exprText(cl.Type)
+						}
+					}
+					return true
+				})
+			}
+			if made == "" {
+				continue
+			}
+			for _, e := range cc.List {
+				if tv, ok := pi.info.Types[e]; ok && tv.Value != nil && tv.Value.Kind() == constant.Int {
+					dispatch = append(dispatch, rec{fn, tv.Value.ExactString(), made})
+				}
+			}
+		}
+		return true
+	})
 }
 
 // ---------------------------------------------------------------- per-function fingerprints and literals
@@ -970,6 +1028,7 @@ func write(path string) {
 	list("src_global_uses", "string * string * string * string", globalUses, four)
 	list("src_field_writes", "string * string * string", fieldWrites, three)
 	list("src_slice_flows", "string * string * string", sliceFlows, three)
+	list("src_dispatch", "string * string * string", dispatch, three)
 	if err := os.WriteFile(path, []byte(b.String()), 0o644); err != nil {
 		fatal("%v", err)
 	}
